@@ -18,7 +18,7 @@ CFG = dict(
              "stores, the first two into one store) => one table sum, no new object on the second ingest; mutants (one cell, one "
              "column name, two columns swapped, key reversed or extended) => another sum; some cases also through wrgl commit (--no-cache) and, every other one, through branch-file mode WITH the cache: after the commit that creates the cached <branch>-tmp commit, 5..8 steps each writing the table / the permuted table / the one-cell mutant, setting the file's mtime with os.Chtimes to cached commit time + {0.2 s, 0.9 s, 0.999 s, 1 ms, 1 s, 2 s} (judged) or + {0, -5 s} (observed only) and running wrgl commit BRANCH MSG or commit --all; also through wrgl commit "
              "from a branch file (unchanged / rewritten permuted / changed). Tables as in C01 (0..600 rows, 1..6 columns). "
-             "two variants of every table of 3+ blocks under a forced worker schedule (gated store); "
+             "three variants of every table of 3 or 4 blocks each under the next completion order of its blocks, so that every permutation (6 + 24) is visited (witness tables of 600..980 rows), two variants of larger tables under a forced worker schedule (gated store); "
              "distinct = distinct case text; non-trivial = at least two rows",
         trusted=["table sums are compared for equality / inequality only; the model compares tables structurally "
                  "(columns, key, row count, blocks)", "the mock object store is wrapped in a mutex"],
